@@ -265,6 +265,7 @@ def main(tier, replay=None):
         for s in outs:
             cnt["out " + B.FMTS[s["tgt"] - 1]] += 1
     B.require_nonvacuous("c14", cnt)
+    B.binding_demo(jobs)
     results = B.pool_map(run_case, jobs, workers=8)
     trace_runs = []
     nontriv = set()
